@@ -561,9 +561,14 @@ func (d *driver) check() int {
 	// 3. aggregate
 	ev := d.aggregate(aggs, samples, active)
 	ev.selftestSeeds, ev.selftestMismatch = stSeeds, stMismatch
-	if ev.harness > 0 {
+	if ev.harness > 0 && len(viols) == 0 {
 		d.writeEvidence(ev, 0)
 		return d.fatal("%d run(s) ended in a simulator diagnostic, e.g. %s", ev.harness, ev.harnessMsg)
+	}
+	if ev.harness > 0 {
+		// with violations on the table a step cap is most likely their consequence
+		// (a library loop that never ends): report the violations, mention the rest
+		fmt.Printf("[%s] note: %d run(s) ended in a simulator diagnostic (e.g. %s)\n", d.prop, ev.harness, ev.harnessMsg)
 	}
 	if ev.runs == 0 && len(viols) == 0 {
 		return d.fatal("no runs were executed")
